@@ -515,27 +515,46 @@ pub fn run_episode(ep: &Episode, pristine: &Pristine) -> EpisodeResult {
     let ep_arc = Arc::new(ep.clone());
 
     // --- tasks ---------------------------------------------------------------
+    // A caller is either a thread made for this episode or one of the process's long-lived pool
+    // threads (a server's worker threads): what a tree under test keeps per thread then lives
+    // through many episodes, and fresh and old threads meet in one episode.
     let mut handles = Vec::new();
+    let mut pooled_done: Vec<std::sync::mpsc::Receiver<()>> = Vec::new();
+    let pool_mode = crate::rng::mix(ep.seed, 0x9001) % 10; // 0..3 fresh, 4..6 pooled, 7..9 mixed
+    let mut pool_order: Vec<usize> = (0..POOL_SIZE).collect();
+    {
+        let mut r = crate::rng::Rng::new(crate::rng::mix(ep.seed, 0x9002));
+        for i in (1..pool_order.len()).rev() {
+            let j = r.usize_below(i + 1);
+            pool_order.swap(i, j);
+        }
+    }
     for id in 0..n_tasks {
         let sim = sim.clone();
         let oracle = oracle.clone();
         let shared = shared.clone();
         let ep = ep_arc.clone();
-        let h = std::thread::Builder::new()
-            .name(format!("task{}", id))
-            .stack_size(8 << 20)
-            .spawn(move || {
-                sched::task_enter(&sim, id);
-                let r = catch_unwind(AssertUnwindSafe(|| task_body(&sim, &oracle, &shared, &ep, id)));
-                sched::task_leave(&sim, id);
-                if let Err(p) = r {
-                    // a panic outside any operation is a harness bug, never a property violation
-                    eprintln!("harness error: task {} panicked outside an operation: {}", id, panic_message(p.as_ref()));
-                    std::process::exit(2);
-                }
-            })
-            .expect("spawn task thread");
-        handles.push(h);
+        let body = move || {
+            sched::task_enter(&sim, id);
+            let r = catch_unwind(AssertUnwindSafe(|| task_body(&sim, &oracle, &shared, &ep, id)));
+            sched::task_leave(&sim, id);
+            if let Err(p) = r {
+                // a panic outside any operation is a harness bug, never a property violation
+                eprintln!("harness error: task {} panicked outside an operation: {}", id, panic_message(p.as_ref()));
+                std::process::exit(2);
+            }
+        };
+        let pooled = match pool_mode {
+            0..=3 => false,
+            4..=6 => true,
+            _ => crate::rng::mix(ep_arc.seed, 0x9003 + id as u64) % 2 == 0,
+        };
+        if pooled && id < POOL_SIZE {
+            pooled_done.push(pool_submit(pool_order[id], Box::new(body)));
+        } else {
+            let h = std::thread::Builder::new().name(format!("task{}", id)).stack_size(8 << 20).spawn(body).expect("spawn task thread");
+            handles.push(h);
+        }
     }
     sim.start();
     if !sim.wait_all_done(STALL_SECS) {
@@ -560,6 +579,9 @@ pub fn run_episode(ep: &Episode, pristine: &Pristine) -> EpisodeResult {
     }
     for h in handles {
         let _ = h.join();
+    }
+    for d in pooled_done {
+        let _ = d.recv();
     }
     if let Some(d) = sim.deadlock() {
         oracle.lock().unwrap().violate("I6_deadlock", "Episode", usize::MAX - 1, 0, d);
@@ -668,6 +690,35 @@ pub fn run_episode(ep: &Episode, pristine: &Pristine) -> EpisodeResult {
         policy: ep.sched.policy.name().to_string(),
         hung: false,
     }
+}
+
+/// Long-lived caller threads of this process (created on first use, never ended).
+pub const POOL_SIZE: usize = 16;
+type PoolJob = (Box<dyn FnOnce() + Send>, std::sync::mpsc::Sender<()>);
+static POOL: Mutex<Vec<Option<std::sync::mpsc::Sender<PoolJob>>>> = Mutex::new(Vec::new());
+
+fn pool_submit(k: usize, job: Box<dyn FnOnce() + Send>) -> std::sync::mpsc::Receiver<()> {
+    let (done_tx, done_rx) = std::sync::mpsc::channel();
+    let mut pool = POOL.lock().unwrap_or_else(|e| e.into_inner());
+    if pool.len() < POOL_SIZE {
+        pool.resize_with(POOL_SIZE, || None);
+    }
+    if pool[k].is_none() {
+        let (tx, rx) = std::sync::mpsc::channel::<PoolJob>();
+        std::thread::Builder::new()
+            .name(format!("pool{}", k))
+            .stack_size(8 << 20)
+            .spawn(move || {
+                while let Ok((job, done)) = rx.recv() {
+                    job();
+                    let _ = done.send(());
+                }
+            })
+            .expect("spawn pool thread");
+        pool[k] = Some(tx);
+    }
+    let _ = pool[k].as_ref().unwrap().send((job, done_tx));
+    done_rx
 }
 
 /// How many on-demand pristine checks follow every episode (set once per process).
